@@ -445,17 +445,35 @@ static void report(const std::string &cid, const Case &c0, const Verdict &v0, bo
     for(size_t g = 0; g < c.dev.size(); ++g) if(c.dev[g] >= 0) { Case x = c; x.dev[g] = -1; if(still(x)) c = x; }
     // does it depend on the values at all? (the plainest sentence "0" in the same surroundings)
     bool any_values = false;
-    { Case x; x.items = {&ITEMS[1]}; x.msg = c.msg; if(run(x, false).c == cl && !(c.items.size() == 1 && c.items[0] == &ITEMS[1])) { c = x; any_values = true; } }
+    { Case x; x.items = {&ITEMS[1]}; x.msg = c.msg; if(run(x, false).c == cl) { c = x; any_values = true; } }
+    // items that can be replaced by the plain "0" without losing the failure are mere company: named '*'
+    std::vector<bool> filler(c.items.size(), false);
+    if(!any_values && c.items.size() >= 2) {
+        for(size_t i = 0; i < c.items.size(); ++i) {
+            if(c.items[i] == &ITEMS[1]) continue;
+            Case x; x.msg = c.msg; x.items = c.items; x.items[i] = &ITEMS[1];
+            if(!legal(x.items)) continue;
+            // carry the deviations over: per item its inner gaps, then the gap behind it
+            size_t g = 0;
+            for(size_t k = 0; k < c.items.size(); ++k) {
+                size_t inner = c.items[k]->tok.size() - 1;
+                if(k != i) x.dev.insert(x.dev.end(), c.dev.begin() + g, c.dev.begin() + g + inner);
+                g += inner;
+                if(k + 1 < c.items.size()) x.dev.push_back(c.dev[g++]);
+            }
+            if(still(x)) { c = x; filler[i] = true; }
+        }
+    }
     std::string text; Verdict v = run(c, reprint, &text);
     Sentence s; s.items = c.items; s.build();
     std::string shape = any_values ? "any-values" : s.kinds();
-    if(v.c == REPRINT && c.items.size() >= 2) {
-        // print -> scan of the scanned values fails only in this company: what stands left of the last item mostly
-        // decides the column; only time stamps (whose scanning looks ahead) are named, other neighbours are '*'
+    if(!any_values && c.items.size() >= 2) {
+        // for print -> scan failures of the scanned values (reprint) what stands left of the last item mostly decides
+        // the column: only time stamps (whose scanning looks ahead) are named there, other neighbours are '*'
         shape.clear();
         for(size_t i = 0; i < c.items.size(); ++i) {
             std::string k = Sentence::coarse(c.items[i]->kind);
-            if(i + 1 < c.items.size() && k.compare(0, 2, "t:") != 0) k = "*";
+            if(filler[i] || (v.c == REPRINT && i + 1 < c.items.size() && k.compare(0, 2, "t:") != 0)) k = "*";
             shape += (i ? "," : "") + k;
         }
     }
